@@ -86,7 +86,7 @@ _QUAL = "('vec_full' in %(e)s and cosine(q_vec, %(e)s['vec_full']) >= sim_thresh
 _KEY = "(0 - %(s)s, %(e)s['id'])"
 SCORED = "List[Tuple[C11Episode, float]]"
 R.contract(
-    INDEX + "InMemoryIndex._rank_by_cosine", "C11",
+    INDEX + "InMemoryIndex._rank_by_cosine", ["C11", "C01"],   # (-score, id) tie-break: also a C01 clause
     types={"self": "C11MemIndex", "eps": EPS, "q_vec": "Un[Vec]", "k": "int", "sim_threshold": "float"},
     returns=SCORED,
     # t2.k_retrieval is validated >= 1; for k < 0 python's scored[:k] drops the *last* |k| entries instead of
